@@ -136,6 +136,7 @@ def zipBytes (f : Nat → Nat → Nat) (a b : List Nat) : List Nat := List.zipWi
 def Val.add (dt : DT) (x w : Val) : Val :=
   match x, w with
   | .num a ea, .num b eb => .ofDy (dt.wrap (dyAdd (a, ea) (b, eb)))
+  | .bytes a, .bytes b => .bytes (zipBytes (fun p q => (p + q) % 256) a b)
   | _, _ => x
 
 /-- two's-complement bitwise operation at the width of `dt` -/
